@@ -98,7 +98,10 @@ def full_width(curves, rng, quick, scale=1.0):
                 return list(corners)
             return rng.sample(corners, per_op)
         pms = [m for m in ms if m % cv.n != 0]
-        m = gen_ep2.mul_cases(cv, rng, ks_for, pms, seeds)
+        # + scalars structured in the Frobenius basis (every zero pattern of the four GLS sub-scalars)
+        frb = gen_ep2.frb_corners(cv, rng, per=1, variants=not quick)
+        m = gen_ep2.mul_cases(cv, rng, ks_for, pms, seeds, frb=frb if not quick else rng.sample(frb, min(len(frb), 8)))
+        m += gen_ep2.mul_cases(cv, rng, lambda op, frb=frb: frb, pms, seeds, ops=["ep2_mul", "ep2_mul_lwnaf", "ep2_mul_lwreg"]) if quick else []
         for op in gen_ep2.MUL_VAR:      # identity as the point operand
             m.append("%s %s 0 %s %s" % (op, cv.spec, gen_ep2.inf_token(cv.sys, rng), gen_ep2.hx(rng.choice(corners))))
         nsim = max(3, int((4 if quick else 30) * scale))
